@@ -120,7 +120,7 @@ def check_direct(M, N, mtot, f):
         return None      # target met within rounding of the summation order: unchanged is right
     removed = mbh - sum(rM)
     frac = sum(rM) / (mtot - removed)
-    if abs(frac - f) > 1e-9 * max(f, cur * 1e-6) + 1e-12 * cur:
+    if not abs(frac - f) <= 1e-9 * max(f, cur * 1e-6) + 1e-12 * cur:
         return {"clause": "final BH mass fraction = target", "observed": repr(frac), "expected": repr(f)}
     j = len(M) - 1
     while j >= 0 and rM[j] == 0 and rN[j] == 0:
@@ -245,12 +245,12 @@ def check_model(res):
         if mode == "above-lenient":
             if not any("greater than" in w for w in res["warnings"]):
                 return {"clause": "non-strict unreachable target must warn"}
-            if abs(frac - ff) > 1e-9 * ff:
+            if not abs(frac - ff) <= 1e-9 * ff:
                 return {"clause": "non-strict unreachable target leaves BHs as formed", "row": i, "observed": repr(frac), "expected": repr(ff)}
         else:
-            if abs(frac - tgt) > 1e-9 * max(tgt, ff * 1e-6) + 1e-12 * ff:
+            if not abs(frac - tgt) <= 1e-9 * max(tgt, ff * 1e-6) + 1e-12 * ff:
                 return {"clause": "BH mass fraction = target", "row": i, "observed": repr(frac), "expected": repr(tgt)}
-    if res.get("ret_expected") is not None and abs(res["ret_dyn"] - res["ret_expected"]) > 1e-9:
+    if res.get("ret_expected") is not None and not abs(res["ret_dyn"] - res["ret_expected"]) <= 1e-9:
         return {"clause": "reported dynamical retention = retained / pre-ejection BH mass", "observed": res["ret_dyn"], "expected": res["ret_expected"]}
     return None
 
